@@ -7,6 +7,13 @@ ROOT = os.path.dirname(os.path.dirname(os.path.abspath(__file__)))
 ALL = ["C%02d" % i for i in range(1, 20)]
 
 CHECKS = {
+    "C05": {
+        "spec": "specs/YamlPipeline.tla + YamlPipelineTrace.tla",
+        "text": "YamlPipeline.tla models the two phases of loading a pipeline section (tags become templates in document order; the PipelineTranslator constructs last to first, passing the previous object as target; one step per constructor call). TLC checks Linked / OnceLastToFirst / NoPartial / StopsAtFailure for all pipelines of length 1..4 (thorough 6) x four syntactic forms per position x failing position and emits every case; each is rendered to YAML twice (seeded argument shapes incl. nested lazy/eager tags, head kind, failure kind), loaded by the real load() with fixture plugins from a fixture dist-info, and the constructor calls, received arguments and returned list (identity of target vs next element) are validated by TLC.",
+        "note": "constructor failures at bind time only (ValueError / KeyError); __type__ elements with keyword items only (as the property says); fixture classes per position.",
+        "design": "5/C05, 4.4",
+        "technique": "TLA+ model checking (TLC) + TLC-enumerated configurations rendered to YAML and loaded by the real code + trace validation",
+    },
     "C04": {
         "spec": "specs/Chain.tla + ChainTrace.tla, specs/Binding.tla + BindingTrace.tla",
         "text": "Chain.tla is an evaluation machine for >> expressions (Partial / PartialBind clause by clause, Python's operand order); TLC checks Associative and OnceLastToFirst for every parenthesisation of 2..6 (thorough 7) elements x three tail forms and emits every expression; each is built as a real Python expression over recording classes (3 random splits of the arguments over curry calls; plus random expressions of 7..10 elements) and the resulting object graph, construction log and received arguments are validated by TLC. Binding.tla states Python's partial call binding as a predicate over signatures and argument supplies; TLC enumerates 48 signatures x supplies x {plain, @service} classes, the real templates are created and curried, and TLC compares each call's outcome with ShouldReject.",
